@@ -35,8 +35,21 @@ claim("C08", "model_checking",
       "Trusted: CBMC + SAT back end, its va_list/memcpy/strcpy/strcmp models, spec/osc_spec.h. 8 elements / depth 3-4 not explored.",
       "CBMC bounded verification of rtosc_bundle* against spec_bundle", "DESIGN.md section 6 / C08")
 
+claim("C14", "proof",
+      "The REAL macro bodies of include/rtosc/port-sugar.h (rParamCb, rParamICb, rParamFCb, rToggleCb, rOptionCb incl. symbol form, "
+      "rArrayFCb/ICb/TCb/OptionCb, rStringCb) are compiled by CBMC's C++ front end as bodies of named functions (rBOIL_BEGIN regenerated "
+      "from the header text by two must-fire substitutions on every run) and checked loop-free over the FULL value domain (all 2^32 ints / "
+      "all non-NaN floats, every declared min/max or none, every previous value): stored value == spec clamp, query replies the stored "
+      "value and assigns nothing, a set broadcasts the new value, exactly one /undo_change iff the value changed carrying address, true "
+      "previous value and new value with the port's type tags, array forms touch only the addressed element (ghost index). rStringCb is "
+      "the one bounded obligation (declared length 8, incoming text <= 11 symbolic bytes).",
+      "Collaborators (rtosc_argument*, prop[min/max], atoi/atof, enum_key, RtData::reply/broadcast) are harness-side contracts (listed in "
+      "evidence assumptions); the std::function/lambda wrapper is dropped; C++ harness has no native replay driver (violations print "
+      "no-failing-input-found; defects are shown natively by findings/c14_*.cpp); enum-backed options, rCOptionCb, rParamsCb not covered.",
+      "CBMC C++ front end on the real port-sugar.h macro bodies, loop-free full-domain symbolic execution against a clamp spec", "DESIGN.md section 6 / C14")
+
 _later = "check not built yet in this revision (planned, see DESIGN.md section 6)"
-for k in ("C03", "C05", "C06", "C14", "C16", "C17", "C18", "C19"):
+for k in ("C03", "C05", "C06", "C16", "C17", "C18", "C19"):
     NA[k] = _later
 NA["C04"] = "Dispatch, the perfect-hash construction and the callbacks are C++ over std::vector<Port>, std::string, std::function with range-for/lambdas; CBMC's C++ front end rejects the TU and has no contract syntax in C++ mode; the only C ingredient, rtosc_match, is decided under C05."
 NA["C09"] = "walk_ports/walk_ports_recurse/bundle_foreach/port_is_enabled take Ports&, iterate std::vector, call std::function ports and snprintf into the shared buffer; no C-extractable core carries the statement."
